@@ -2,6 +2,8 @@ package vt
 
 import (
 	"bytes"
+	"os"
+	"sync/atomic"
 	"encoding/json"
 	"fmt"
 	"io"
@@ -59,6 +61,7 @@ type linkCase struct {
 	DrawN     int64     `json:"draw_n"`     // its argument
 	DrawCount int       `json:"draw_count"` // how many mirrored draws to report
 	SinkDelay []int64   `json:"sink_delay"` // ns the receiver takes to accept each write, cyclically (empty = always ready)
+	LinkStart []int64   `json:"link_start"` // per-link: virtual instant at which the connection is established (default 0)
 	Srcs    [][]srcEv   `json:"srcs"`   // per-link source scripts (link k uses Srcs[k] when present, else Src)
 }
 
@@ -87,7 +90,9 @@ type linkResult struct {
 	More     []linkResult `json:"more,omitempty"` // further links of the same case
 	Draws    []int64      `json:"draws,omitempty"` // mirrored PRNG values after the reseed
 	StartDraws []float64  `json:"start_draws,omitempty"` // the first Float32 values of the source seeded at case start
-	Leak     string       `json:"leak,omitempty"` // synctest's deadlock report: goroutines still blocked at the end
+	Leak     string       `json:"leak,omitempty"`
+	Hang     bool         `json:"hang,omitempty"`    // the case wedged (no progress in real time): an API operation never returned
+	NotRun   bool         `json:"not_run,omitempty"` // after a wedged case the process exits; these are re-run by the driver // synctest's deadlock report: goroutines still blocked at the end
 }
 
 func pattern(k int) byte { return byte((k*7 + 3) % 251) }
@@ -164,8 +169,35 @@ func runLinks(t *testing.T, raw []byte) []linkResult {
 		t.Fatal(err)
 	}
 	res := make([]linkResult, len(in.Cases))
+	// watchdog (real time, outside every bubble): a case that wedges on a lock never lets the fake clock advance;
+	// the partial results are written with the wedged case marked, and the process exits (status 3)
+	var cur, started atomic.Int64
+	cur.Store(-1)
+	stop := make(chan struct{})
+	defer close(stop)
+	go func() {
+		for {
+			select {
+			case <-stop:
+				return
+			case <-time.After(500 * time.Millisecond):
+			}
+			i := cur.Load()
+			if i >= 0 && time.Now().UnixNano()-started.Load() > int64(watchdogSeconds)*1e9 {
+				res[i] = linkResult{Hang: true, Closed: -1}
+				for j := int(i) + 1; j < len(res); j++ {
+					res[j] = linkResult{NotRun: true, Closed: -1}
+				}
+				b, _ := json.Marshal(res)
+				os.WriteFile(*flagOut, b, 0o644)
+				os.Exit(3)
+			}
+		}
+	}()
 	for i := range in.Cases {
 		c := &in.Cases[i]
+		started.Store(time.Now().UnixNano())
+		cur.Store(int64(i))
 		func() {
 			// goroutines left blocked for ever when the bubble ends (a leak, see C15) make
 			// synctest panic after the case function returned; the observations are already taken
@@ -179,8 +211,11 @@ func runLinks(t *testing.T, raw []byte) []linkResult {
 			})
 		}()
 	}
+	cur.Store(-1)
 	return res
 }
+
+const watchdogSeconds = 25
 
 func runLinkCase(t *testing.T, c *linkCase) linkResult {
 	rand.Seed(c.Seed + 1)
@@ -206,11 +241,26 @@ func runLinkCase(t *testing.T, c *linkCase) linkResult {
 	pws := make([]*io.PipeWriter, nl)
 	srcTotals := make([]int, nl)
 	var srcWG sync.WaitGroup
+	prs := make([]*io.PipeReader, nl)
 	for k := 0; k < nl; k++ {
 		pr, pw := io.Pipe()
+		prs[k] = pr
 		pws[k] = pw
 		sinks[k] = &recSink{start: start, closed: -1, delays: c.SinkDelay}
-		proxy.Toxics.StartLink(server, fmt.Sprintf("c%d%s", k, c.Dir), pr, sinks[k], dir)
+		if k >= len(c.LinkStart) || c.LinkStart[k] == 0 {
+			proxy.Toxics.StartLink(server, fmt.Sprintf("c%d%s", k, c.Dir), pr, sinks[k], dir)
+		}
+	}
+	var lateWG sync.WaitGroup
+	for k := 0; k < nl; k++ {
+		if k < len(c.LinkStart) && c.LinkStart[k] > 0 {
+			lateWG.Add(1)
+			go func(k int) {
+				defer lateWG.Done()
+				time.Sleep(time.Duration(c.LinkStart[k]))
+				proxy.Toxics.StartLink(server, fmt.Sprintf("c%d%s", k, c.Dir), prs[k], sinks[k], dir)
+			}(k)
+		}
 	}
 	synctest.Wait()
 	var mirrored []int64
@@ -318,6 +368,7 @@ func runLinkCase(t *testing.T, c *linkCase) linkResult {
 	synctest.Wait()
 	opWG.Wait()
 	srcWG.Wait()
+	lateWG.Wait()
 	labels := []string{c.Dir, proxy.Name, proxy.Listen, proxy.Upstream}
 	results[0].Rx = counterValue(server.Metrics.ProxyMetrics.ReceivedBytesTotal, labels)
 	results[0].Tx = counterValue(server.Metrics.ProxyMetrics.SentBytesTotal, labels)
